@@ -1,2 +1,16 @@
 #!/bin/sh
-exit 0
+# setup.sh — builds the framework from files on disk only (offline):
+#   Coq development (all proofs, `make`), extraction, OCaml drivers, generated macro corpus,
+#   Rust harness crates against /repo's current tree.
+set -e
+cd /verif
+export CARGO_NET_OFFLINE=true CARGO_TARGET_DIR=/verif/build/target
+mkdir -p build evidence
+tools/build_model.sh
+python3 tools/gen_corpus.py build/corpus 2>/dev/null || { mkdir -p build/corpus && python3 tools/gen_corpus.py build/corpus; }
+for c in vh-core vh-macro; do
+  cp /repo/Cargo.lock harness/$c/Cargo.lock
+  (cd harness/$c && timeout 3000 cargo build --offline 2>&1 | grep -v "^WARNING conda" | tail -3)
+done
+for p in parts/*/setup.sh; do [ -x "$p" ] && "$p"; done
+echo "setup done"
